@@ -363,4 +363,59 @@ theorem batches_eq_chunks (rows : List α) (size : Nat) (hs : 0 < size) : batche
   intro i
   rw [batches_get rows size hs, chunks, batchesAux_get size hs _ rows (Nat.le_refl _)]
 
+theorem drop_take_succ_getElem? (l : List α) (p c : Nat) :
+    (l.drop p).take (c + 1) = (l[p]?).toList ++ (l.drop (p + 1)).take c := by
+  cases h : l[p]? with
+  | none =>
+    have hp : l.length ≤ p := by simpa using h
+    simp [List.drop_eq_nil_of_le hp, List.drop_eq_nil_of_le (Nat.le_succ_of_le hp)]
+  | some x =>
+    obtain ⟨hlt, hx⟩ := List.getElem?_eq_some_iff.mp h
+    rw [List.drop_eq_getElem_cons hlt, hx]
+    simp
+
+/-- `j` consecutive batches from batch number `p` are the batches of the `j·b` rows from row `p·b`. -/
+theorem batches_window (rows : List α) (b p j : Nat) (hb : 0 < b) :
+    ((batches rows b).drop p).take j = batches ((rows.drop (p * b)).take (j * b)) b := by
+  apply List.ext_getElem?
+  intro i
+  rw [List.getElem?_take, List.getElem?_drop, batches_get _ _ hb, batches_get _ _ hb]
+  simp only [List.length_take, List.length_drop]
+  by_cases hij : i < j
+  · have h1 : (i + 1) * b ≤ j * b := Nat.mul_le_mul_right b hij
+    have h2 : (p + i) * b = p * b + i * b := Nat.add_mul p i b
+    have h3 : (i + 1) * b = i * b + b := Nat.succ_mul i b
+    simp only [hij, if_true, h2]
+    by_cases hlt : p * b + i * b < rows.length
+    · have h4 : i * b < min (j * b) (rows.length - p * b) := by omega
+      simp only [hlt, h4, if_true]
+      congr 1
+      rw [List.drop_take, List.drop_drop, List.take_take]
+      congr 1
+      omega
+    · have h4 : ¬ i * b < min (j * b) (rows.length - p * b) := by omega
+      simp [hlt, h4]
+  · have h1 : j * b ≤ i * b := Nat.mul_le_mul_right b (Nat.le_of_not_gt hij)
+    have h4 : ¬ i * b < min (j * b) (rows.length - p * b) := by omega
+    simp [hij, h4]
+
+theorem distinctOnAux_injective {κ : Type} [DecidableEq α] [DecidableEq κ] (k : α → κ) (hk : ∀ a b, k a = k b → a = b)
+    (seen : List α) (xs : List α) : distinctOnAux k (seen.map k) xs = distinctAux seen xs := by
+  induction xs generalizing seen with
+  | nil => rfl
+  | cons x xs ih =>
+    have hm : k x ∈ seen.map k ↔ x ∈ seen := by
+      constructor
+      · intro h
+        obtain ⟨y, hy, hyx⟩ := List.mem_map.mp h
+        exact hk y x hyx ▸ hy
+      · exact fun h => List.mem_map.mpr ⟨x, h, rfl⟩
+    unfold distinctOnAux distinctAux
+    by_cases hx : x ∈ seen
+    · simp only [hm, hx, if_true]; exact ih seen
+    · simp only [hm, hx, if_false]
+      have := ih (x :: seen)
+      simp only [List.map_cons] at this
+      rw [this]
+
 end Frame
